@@ -48,6 +48,13 @@ func (m *LuaManager) RunLuaScript(obj *unstructured.Unstructured, script string)
 			return nil, err
 		}
 	}
+	// The base library is needed for pairs/pcall/tostring/..., but it also registers
+	// functions that reach the file system (dofile and loadfile, which moreover read
+	// os.Stdin when called without a file name) and the module loader. A traffic
+	// routing script gets none of these.
+	for _, name := range []string{"dofile", "loadfile", "require"} {
+		l.SetGlobal(name, lua.LNil)
+	}
 	ctx, cancel := context.WithTimeout(context.Background(), 1*time.Second)
 	defer cancel()
 	l.SetContext(ctx)
